@@ -5,6 +5,7 @@ CONSTANTS
   MaxPkts = @@PKTS@@
   MaxLen = @@LEN@@
   BodyClasses = @@CONTENTS@@
+  Flags = @@FLAGS@@
   MaxStall = @@STALL@@
   Chunking = "@@CHUNK@@"
   Dev = {}
